@@ -101,6 +101,23 @@ pub struct FdSpec {
     pub vsindex: Option<i32>,
     /// extra Private DICT entries, already encoded (operands + operator)
     pub private_extra: Vec<u8>,
+    /// extra Font DICT entries (CID-keyed CFF), already encoded, in front of the Private operator
+    pub fdict_extra: Vec<u8>,
+}
+
+/// What the plain builders fix: the Name INDEX entry, additional strings of the String INDEX (for a
+/// CID-keyed font they follow "Adobe" and "Identity"), additional Top DICT entries (already encoded).
+#[derive(Clone, Debug)]
+pub struct CffMeta {
+    pub name: Vec<u8>,
+    pub strings: Vec<Vec<u8>>,
+    pub top_extra: Vec<u8>,
+}
+
+impl Default for CffMeta {
+    fn default() -> CffMeta {
+        CffMeta { name: b"VerifFont".to_vec(), strings: vec![], top_extra: vec![] }
+    }
 }
 
 #[derive(Clone, Debug)]
@@ -110,6 +127,9 @@ pub enum CharsetSpec {
     Format0(Vec<u16>),
     /// format 2: one range covering glyphs 1.. with CID = gid
     IdentityRange,
+    /// format 1 (nLeft u8) / format 2 (nLeft u16): the ids of glyph 1, 2, ... folded into ranges of consecutive ids
+    Ranges1(Vec<u16>),
+    Ranges2(Vec<u16>),
 }
 
 #[derive(Clone, Debug)]
@@ -173,6 +193,28 @@ fn charset_bytes(cs: &CharsetSpec, nglyphs: usize) -> Vec<u8> {
             }
             o
         }
+        CharsetSpec::Ranges1(ids) | CharsetSpec::Ranges2(ids) => {
+            assert_eq!(ids.len() + 1, nglyphs);
+            let wide = matches!(cs, CharsetSpec::Ranges2(_));
+            let cap = if wide { 65535usize } else { 255 };
+            let mut ranges: Vec<(u16, usize)> = Vec::new(); // first, nLeft
+            for &id in ids {
+                match ranges.last_mut() {
+                    Some(r) if r.0 as usize + r.1 + 1 == id as usize && r.1 < cap => r.1 += 1,
+                    _ => ranges.push((id, 0)),
+                }
+            }
+            let mut o = vec![if wide { 2u8 } else { 1u8 }];
+            for (first, left) in ranges {
+                o.extend_from_slice(&first.to_be_bytes());
+                if wide {
+                    o.extend_from_slice(&(left as u16).to_be_bytes());
+                } else {
+                    o.push(left as u8);
+                }
+            }
+            o
+        }
         CharsetSpec::IdentityRange => {
             if nglyphs <= 1 {
                 vec![0u8]
@@ -189,8 +231,13 @@ fn charset_bytes(cs: &CharsetSpec, nglyphs: usize) -> Vec<u8> {
 /// A complete CFF table (TN5176): header, Name INDEX, Top DICT INDEX, String INDEX, Global Subr
 /// INDEX, CharStrings INDEX, charset, (FDSelect, FDArray,) Private DICT(s), Local Subr INDEX(es).
 pub fn build_cff(s: &CffSpec) -> Vec<u8> {
-    let name_idx = index(&[b"VerifFont".to_vec()], false, None);
-    let strings: Vec<Vec<u8>> = if s.cid { vec![b"Adobe".to_vec(), b"Identity".to_vec()] } else { vec![] };
+    build_cff_meta(s, &CffMeta::default())
+}
+
+pub fn build_cff_meta(s: &CffSpec, meta: &CffMeta) -> Vec<u8> {
+    let name_idx = index(&[meta.name.clone()], false, None);
+    let mut strings: Vec<Vec<u8>> = if s.cid { vec![b"Adobe".to_vec(), b"Identity".to_vec()] } else { vec![] };
+    strings.extend(meta.strings.iter().cloned());
     let string_idx = index(&strings, false, None);
     let gsubr_idx = index(&s.gsubrs, false, None);
     let cs_idx = index(&s.glyphs, false, None);
@@ -205,6 +252,7 @@ pub fn build_cff(s: &CffSpec) -> Vec<u8> {
             d.extend(dict_int(0));
             d.extend(dict_op(OP_ROS));
         }
+        d.extend_from_slice(&meta.top_extra);
         if !charset.is_empty() {
             d.extend(dict_int5(charset_off));
             d.extend(dict_op(OP_CHARSET));
@@ -238,14 +286,15 @@ pub fn build_cff(s: &CffSpec) -> Vec<u8> {
         cur += fdsel.len();
         tail.extend(fdsel);
         fda_off = cur;
-        let fd_dict_len = 11;
-        let fda_len = 2 + 1 + (s.fds.len() + 1) * (off_size_for(fd_dict_len * s.fds.len() + 1) as usize) + fd_dict_len * s.fds.len();
+        let fd_total: usize = s.fds.iter().map(|fd| fd.fdict_extra.len() + 11).sum();
+        let fda_len = 2 + 1 + (s.fds.len() + 1) * (off_size_for(fd_total + 1) as usize) + fd_total;
         cur += fda_len;
         let mut fdicts = Vec::new();
         let mut blobs = Vec::new();
         for fd in &s.fds {
             let pd = private_dict(fd);
-            let mut fdict = dict_int5(pd.len() as i32);
+            let mut fdict = fd.fdict_extra.clone();
+            fdict.extend(dict_int5(pd.len() as i32));
             fdict.extend(dict_int5(cur as i32));
             fdict.extend(dict_op(OP_PRIVATE));
             fdicts.push(fdict);
